@@ -6,6 +6,7 @@ import (
 	"math/big"
 	"math/rand/v2"
 	"os"
+	"os/exec"
 	"path/filepath"
 	"sort"
 	"strings"
@@ -22,6 +23,48 @@ func init() {
 	Registry["C15"] = C15
 	Registry["C16"] = C16
 	children["race-prims"] = racePrimsChild
+	children["wt-scenario"] = wtScenarioChild
+}
+
+// wtScenarioChild runs one WaitTimeout scenario in a process of its own: a lock left behind by a dead goroutine or a
+// call that never returns cannot take the check down.
+func wtScenarioChild(args []string) int {
+	var s wtScenario
+	if json.Unmarshal([]byte(args[0]), &s) != nil {
+		return 3
+	}
+	evs, hung := runWT(s)
+	b, _ := json.Marshal(map[string]any{"evs": evs, "hung": hung})
+	fmt.Println("WTRES " + string(b))
+	return 0
+}
+
+func runWTChild(s wtScenario) ([]map[string]any, bool) {
+	self, _ := os.Executable()
+	sb, _ := json.Marshal(s)
+	out, _, timedOut := runWithDeadline(exec.Command(self, "-child", "wt-scenario", string(sb)), time.Duration(s.TimeoutMs)*time.Millisecond+15*time.Second)
+	for _, ln := range strings.Split(out, "\n") {
+		if strings.HasPrefix(ln, "WTRES ") {
+			var r struct {
+				Evs  []map[string]any `json:"evs"`
+				Hung bool             `json:"hung"`
+			}
+			if json.Unmarshal([]byte(strings.TrimPrefix(ln, "WTRES ")), &r) == nil {
+				for _, e := range r.Evs { // numbers come back as float64
+					for k, v := range e {
+						if f, ok := v.(float64); ok {
+							e[k] = int(f)
+						}
+					}
+				}
+				return r.Evs, r.Hung
+			}
+		}
+	}
+	_ = timedOut
+	// no result: the scenario process hung (or died): the call never returned as far as an observer can tell
+	return []map[string]any{{"ev": "reset", "scenario": s.Name}, {"ev": "call", "t": 0, "timeout": int(s.TimeoutMs)},
+		{"ev": "return", "t": int(s.TimeoutMs) + 15000, "held": 0, "hung": 1}}, true
 }
 
 // primsConcurrent: the per-call contracts hold for calls made at the same time from several goroutines on private
@@ -104,6 +147,35 @@ func racePrimsChild(args []string) int {
 	fmt.Sscan(args[0], &seed)
 	a := primsConcurrent("enc", seed, 4, 3000)
 	b := primsConcurrent("str", seed, 4, 3000)
+	// neighbours: one goroutine encodes into the first 4 / 8 bytes of a buffer while another owns the bytes right
+	// behind the frame ("leaves every other byte untouched" includes not rewriting them with what they held)
+	{
+		buf32 := make([]byte, 16)
+		buf64 := make([]byte, 24)
+		var wg sync.WaitGroup
+		wg.Add(2)
+		go func() {
+			defer wg.Done()
+			for i := 0; i < 20000; i++ {
+				machine.UInt32Put(buf32, uint32(i))
+				machine.UInt64Put(buf64, uint64(i))
+				_ = machine.UInt32Get(buf32)
+				_ = machine.UInt64Get(buf64)
+			}
+		}()
+		go func() {
+			defer wg.Done()
+			for i := 0; i < 20000; i++ {
+				for k := 4; k < 16; k++ {
+					buf32[k] = byte(i)
+				}
+				for k := 8; k < 24; k++ {
+					buf64[k] = byte(i)
+				}
+			}
+		}()
+		wg.Wait()
+	}
 	if a != "" || b != "" {
 		fmt.Println("CONTRACT:", a, b)
 	}
@@ -446,7 +518,11 @@ func C16(c *ev.Ctx) {
 	raceChild(c, "race-prims", "goose/machine")
 	// (b) MapClear / Assume / Assert
 	mcCases := 0
+	mcSizes := []int{0, 1, 2, 7, 8, 9, 63, 64, 65, 127, 128, 129, 1000, 5000}
 	for n := 0; n < c.Pick(40, 400); n++ {
+		mcSizes = append(mcSizes, n)
+	}
+	for _, n := range mcSizes {
 		m1 := map[uint64]string{}
 		m2 := map[string][]byte{}
 		type k3 struct{ a, b uint32 }
@@ -456,9 +532,22 @@ func C16(c *ev.Ctx) {
 			m2[fmt.Sprint("k", i)] = []byte{byte(i)}
 			m3[k3{uint32(i), uint32(n)}] = i%2 == 0
 		}
-		machine.MapClear(m1)
-		machine.MapClear(m2)
-		machine.MapClear(m3)
+		cleared := make(chan bool, 1)
+		go func() {
+			machine.MapClear(m1)
+			machine.MapClear(m2)
+			machine.MapClear(m3)
+			cleared <- true
+		}()
+		select {
+		case <-cleared:
+		case <-time.After(20 * time.Second):
+			c.Violation("mapclear-hang", fmt.Sprintf("MapClear on maps with %d entries did not return within 20 s", n), nil)
+			n = -1
+		}
+		if n < 0 {
+			break
+		}
 		m1[7], m2["x"], m3[k3{1, 2}] = "seven", []byte{1}, true
 		if len(m1) != 1 || len(m2) != 1 || len(m3) != 1 || m1[7] != "seven" {
 			c.Violation("mapclear", fmt.Sprintf("MapClear on maps with %d entries: sizes after clear+1 insert are %d %d %d (want 1 1 1)", n, len(m1), len(m2), len(m3)), nil)
@@ -537,7 +626,7 @@ func C16(c *ev.Ctx) {
 		var wg sync.WaitGroup
 		for i := range scen {
 			wg.Add(1)
-			go func(i int) { defer wg.Done(); results[i], hung[i] = runWT(scen[i]) }(i)
+			go func(i int) { defer wg.Done(); results[i], hung[i] = runWTChild(scen[i]) }(i)
 		}
 		wg.Wait()
 		var all []map[string]any
@@ -568,7 +657,7 @@ func C16(c *ev.Ctx) {
 			repro := 1
 			var last []map[string]any = results[si]
 			for k := 0; k < 2; k++ {
-				e2, _ := runWT(sc)
+				e2, _ := runWTChild(sc)
 				if a, _, br := validate(e2); !a && !br {
 					repro++
 					last = e2
